@@ -69,10 +69,18 @@ theorem C36_exclusion_wins (st : FilterState) (t : Target) (g : Str) (hg : g ∈
     shouldIncludeS lf ff st t = false := by
   rw [Bool.eq_false_iff, Ne, C36_exact]; intro hs; exact hs.2.1 ⟨g, hg, h⟩
 
+-- non-vacuity: the group "go,manual" holds for a target labelled go, manual, lib (and it is also included by "go*")
+example : GroupHolds ff ⟨⟨"a".toList, "x".toList, []⟩, ["go".toList, "manual".toList, "lib".toList], false⟩ "go,manual".toList ∧
+    GroupHolds ff ⟨⟨"a".toList, "x".toList, []⟩, ["go".toList, "manual".toList, "lib".toList], false⟩ "go*".toList := by
+  constructor <;> (rw [← groupHolds_iff]; decide)
+
 /-- An exclude build pattern removes exactly the targets it selects (component-wise for `/...`). -/
 theorem C36_pattern_exclusion_wins (st : FilterState) (t : Target) (e : Label) (he : e ∈ st.excludeTargets)
     (h : PatternSelects e t.label) : shouldIncludeS lf ff st t = false := by
   rw [Bool.eq_false_iff, Ne, C36_exact]; intro hs; exact hs.2.2 ⟨e, he, h⟩
+
+example : PatternSelects ⟨"third_party".toList, dots, []⟩ ⟨"third_party/go".toList, "x".toList, []⟩ ∧
+    ¬ PatternSelects ⟨"third_party".toList, dots, []⟩ ⟨"third_partyx".toList, "x".toList, []⟩ := by decide
 
 theorem C36_pattern_exact (e l : Label) : includes lf e l = true ↔ PatternSelects e l :=
   includes_iff_patternSelects lf core.1 e l
